@@ -117,30 +117,25 @@ type keyInfo struct {
 	set, pos          int // contextual: set index (-1 none), position
 }
 
-// membership and position in the contextual sort sets, probed through the public API:
-// a fresh ByContextualEx whose first key is a full weekday/month name infers that set; the
-// fallback is called iff the other key is not a member.
+// weekday / month names of the harness's own pools (only used to shape key sets and to label
+// them in the distribution; the model takes membership from the translator-generated tables)
 var c13Canon = [][]string{
 	{"sunday", "monday", "tuesday", "wednesday", "thursday", "friday", "saturday"},
 	{"january", "february", "march", "april", "may", "june", "july", "august", "september", "october", "november", "december"},
 }
 
 func ctxSetPos(name string) (int, int) {
-	for si, canon := range c13Canon {
-		fell := false
-		c := sorting.ByContextualEx(func(a, b string) bool { fell = true; return false })
-		c(canon[0], name)
-		if fell {
-			continue
-		}
-		pos := 0
-		for _, d := range canon {
-			c2 := sorting.ByContextualEx(func(a, b string) bool { return false })
-			if c2(d, name) {
-				pos++
+	l := strings.ToLower(name)
+	for si, pool := range [][]string{poolWeek, poolMonth} {
+		for _, n := range pool {
+			if n == l {
+				for pos, full := range c13Canon[si] {
+					if strings.HasPrefix(full, l) {
+						return si, pos
+					}
+				}
 			}
 		}
-		return si, pos
 	}
 	return -1, 0
 }
@@ -197,65 +192,9 @@ func c13Oracles(keys []c13Key) (terms []string, infos []keyInfo, layouts []strin
 	return
 }
 
-// ---------------------------------------------------------------- domains of the known findings (from the input alone)
-func smartDefect(infos []keyInfo, names []string) bool {
-	num, nonnum, nan, parsed := 0, 0, 0, 0
-	for _, x := range infos {
-		if x.isNum {
-			num++
-		} else {
-			nonnum++
-		}
-		if x.isNaN {
-			nan++
-		}
-		if x.fOK {
-			parsed++
-		}
-	}
-	if num > 0 && nonnum > 0 {
-		return true
-	}
-	if nan > 0 && parsed > 1 {
-		return true
-	}
-	for i := range infos {
-		for j := i + 1; j < len(infos); j++ {
-			if infos[i].isNum && infos[j].isNum && infos[i].fv == infos[j].fv && names[i] != names[j] {
-				return true
-			}
-		}
-	}
-	return false
-}
-
-// "set" (one sort set, distinct positions), "none", "ties", "mixed"
-func ctxDomain(infos []keyInfo) string {
-	if len(infos) == 0 {
-		return "none"
-	}
-	s := infos[0].set
-	seen := map[int]bool{}
-	ties := false
-	for _, x := range infos {
-		if x.set != s {
-			return "mixed"
-		}
-		if seen[x.pos] {
-			ties = true
-		}
-		seen[x.pos] = true
-	}
-	if s < 0 {
-		return "none"
-	}
-	if ties {
-		return "ties"
-	}
-	return "set"
-}
-
-// "layout", "ties", "nolayout", "mixed"
+// ---------------------------------------------------------------- domain of the recorded finding (from the input alone)
+// ByDate keeps closure state; it is state-free on key sets where every key has the same layout
+// and parses in it ("layout") or no key has a layout at all ("nolayout"); anything else is "mixed".
 func dateDomain(infos []keyInfo, layouts []string, instants [][]*big.Int) string {
 	if len(infos) == 0 {
 		return "nolayout"
@@ -274,34 +213,15 @@ func dateDomain(infos []keyInfo, layouts []string, instants [][]*big.Int) string
 	if !allOK || len(layouts) != 1 {
 		return "mixed"
 	}
-	for _, x := range infos {
-		if x.layout != layouts[0] {
+	for i, x := range infos {
+		if x.layout != layouts[0] || instants[i][0] == nil {
 			return "mixed"
 		}
-	}
-	seen := map[string]bool{}
-	ties := false
-	for i := range infos {
-		if instants[i][0] == nil {
-			return "mixed"
-		}
-		s := instants[i][0].String()
-		if seen[s] {
-			ties = true
-		}
-		seen[s] = true
-	}
-	if ties {
-		return "ties"
 	}
 	return "layout"
 }
 
-const (
-	kfSmart    = "kf:C13-bynamesmart"
-	kfStateful = "kf:C13-stateful-comparators"
-	kfTies     = "kf:C13-contextual-ties"
-)
+const kfDate = "kf:C13-stateful-date"
 
 // ---------------------------------------------------------------- running the implementation
 func c13Run(in c13In) (out c13Out) {
@@ -510,49 +430,68 @@ func c13Case(in c13In) Case {
 	}
 	sort.Strings(cl)
 	tags = append(tags, "keys="+strings.Join(cl, "+"))
-	usesSmart := false
 	nontrivial := len(in.Keys) >= 3
-	if !out.Err {
-		switch lname {
-		case "numeric":
-			usesSmart = true
-		case "contextual":
-			d := ctxDomain(infos)
-			tags = append(tags, "ctx-domain="+d)
-			switch d {
-			case "mixed":
-				tags = append(tags, kfStateful)
-				usesSmart = true
-			case "ties":
-				tags = append(tags, kfTies)
-			case "none":
-				usesSmart = true
+	if !out.Err && lname == "date" {
+		d := dateDomain(infos, layouts, instants)
+		tags = append(tags, "date-domain="+d)
+		if d == "mixed" {
+			tags = append(tags, kfDate)
+		}
+	}
+	if !out.Err && lname == "date" && len(layouts) == 1 {
+		seen := map[string]bool{}
+		for i := range infos {
+			if instants[i][0] != nil {
+				k := instants[i][0].String()
+				if seen[k] {
+					tags = append(tags, "equal-instants")
+					break
+				}
+				seen[k] = true
 			}
-		case "date":
-			d := dateDomain(infos, layouts, instants)
-			tags = append(tags, "date-domain="+d)
-			switch d {
-			case "mixed":
-				tags = append(tags, kfStateful)
-				usesSmart = true
-			case "ties":
-				tags = append(tags, kfTies)
-			case "nolayout":
-				cd := ctxDomain(infos)
-				tags = append(tags, "ctx-domain="+cd)
-				switch cd {
-				case "mixed":
-					tags = append(tags, kfStateful)
-					usesSmart = true
-				case "ties":
-					tags = append(tags, kfTies)
-				case "none":
-					usesSmart = true
+		}
+	}
+	// boundary classes of the repaired comparators
+	if !out.Err && (lname == "numeric" || lname == "contextual" || lname == "date") {
+		num, other := 0, 0
+		for _, x := range infos {
+			if x.isNum {
+				num++
+			} else {
+				other++
+			}
+		}
+		if num > 0 && other > 0 {
+			tags = append(tags, "numbers+text")
+		}
+		for i := range infos {
+			for j := i + 1; j < len(infos); j++ {
+				if infos[i].isNum && infos[j].isNum && infos[i].fv == infos[j].fv {
+					tags = append(tags, "equal-values")
+					i = len(infos)
+					break
 				}
 			}
 		}
-		if usesSmart && smartDefect(infos, names) {
-			tags = append(tags, kfSmart)
+	}
+	if !out.Err && (lname == "contextual" || lname == "date") {
+		sets := map[int]bool{}
+		pos := map[[2]int]bool{}
+		tie := false
+		for _, x := range infos {
+			sets[x.set] = true
+			if x.set >= 0 {
+				if pos[[2]int{x.set, x.pos}] {
+					tie = true
+				}
+				pos[[2]int{x.set, x.pos}] = true
+			}
+		}
+		if len(sets) > 1 {
+			tags = append(tags, "calendar-mixture")
+		}
+		if tie {
+			tags = append(tags, "calendar-tie")
 		}
 	}
 	kb, _ := json.Marshal(in)
@@ -761,6 +700,8 @@ func genNames(r *Rng, recipe string, n int) []string {
 			return genDates(r, n, false)
 		case "dates-mixed":
 			return genDates(r, n, true)
+		case "dates-ties": // one layout, several spellings of one instant (time zones)
+			return genDatesFrom(r, n, poolDates[8])
 		default: // anything
 			switch r.Intn(7) {
 			case 0:
@@ -778,6 +719,19 @@ func genNames(r *Rng, recipe string, n int) []string {
 			default:
 				add(Pick(r, poolNearCal))
 			}
+		}
+	}
+	return out
+}
+
+func genDatesFrom(r *Rng, n int, grp []string) []string {
+	seen := map[string]bool{}
+	var out []string
+	for tries := 0; len(out) < n && tries < 40; tries++ {
+		s := Pick(r, grp)
+		if !seen[s] {
+			seen[s] = true
+			out = append(out, s)
 		}
 	}
 	return out
@@ -890,7 +844,7 @@ var recipes = []recipe{
 	{"numeric", "numbers-distinct"}, {"numeric", "puretext"}, {"numeric", "numbers"}, {"numeric", "num+text"}, {"numeric", "any"},
 	{"contextual", "weekdays"}, {"contextual", "months"}, {"context", "weekdays"}, {"contextual", "puretext"},
 	{"contextual", "numbers-distinct"}, {"contextual", "cal-mixed"}, {"contextual", "cal-ties"}, {"contextual", "any"},
-	{"date", "dates-one-layout"}, {"date", "dates-one-layout"}, {"date", "dates-mixed"}, {"date", "weekdays"}, {"date", "months"},
+	{"date", "dates-one-layout"}, {"date", "dates-one-layout"}, {"date", "dates-mixed"}, {"date", "dates-ties"}, {"date", "weekdays"}, {"date", "months"},
 	{"date", "puretext"}, {"date", "any"},
 	{"value", "any"}, {"value", "text"}, {"value", "num+text"},
 	{"*", "any"}, // any spec incl. malformed
@@ -993,13 +947,13 @@ func fixedCases() []c13In {
 		return in
 	}
 	return []c13In{
-		mk("ax", "numeric", "", "9", "10", "5x"),                                  // #19a cycle
+		mk("ax", "numeric", "", "9", "10", "5x"),                                  // C13-bynamesmart: cycle (fixed)
 		mk("sort", "numeric", "Sort", "9", "10", "5x"),                            //
-		mk("sort", "numeric", "Sort", "1", "1.0", "01", "1e0"),                    // #19a ties
-		mk("ax", "numeric", "", "nan", "1", "2", "NaN"),                           // #19a NaN
-		mk("sort", "contextual", "Sort", "b", "wed", "thu"),                       // #19b witness
-		mk("sort", "date", "Sort", "n/a", "01/02/2022", "12/31/2021"),             // #19b witness (date)
-		mk("sort", "contextual", "Sort", "mon", "Monday", "MON", "tue"),           // ties
+		mk("sort", "numeric", "Sort", "1", "1.0", "01", "1e0"),                    // C13-bynamesmart: ties (fixed)
+		mk("ax", "numeric", "", "nan", "1", "2", "NaN"),                           // C13-bynamesmart: NaN (fixed)
+		mk("sort", "contextual", "Sort", "b", "wed", "thu"),                       // C13-stateful-comparators witness (fixed)
+		mk("sort", "date", "Sort", "n/a", "01/02/2022", "12/31/2021"),             // C13-stateful-date witness (recorded)
+		mk("sort", "contextual", "Sort", "mon", "Monday", "MON", "tue"),           // C13-contextual-ties (fixed)
 		mk("sort", "contextual", "Sort", "wed", "tues", "mon", "thurs"),           // repo test
 		mk("sort", "contextual", "Sort", "wed", "abc", "00"),                      // repo test (fallback)
 		mk("sort", "date", "Sort", "2022-09-03", "2022-09-02", "2021-09-01"),      // repo test
@@ -1015,11 +969,11 @@ func main() {
 	Main(&Prop{
 		Name:   "C13",
 		Header: "From Coq Require Import List ZArith String.\nFrom RareV Require Import Corr.C13Case.\nImport ListNotations.\nOpen Scope Z_scope. Open Scope string_scope.\n",
-		Rule: "fixed witnesses (repo tests, findings #19a/#19b) followed by seeded random cases: a (sort name, key recipe) pair, modifiers ''/:asc/:desc/:rev/:reverse in random letter case, 1 in 27 any specification incl. malformed ones; " +
+		Rule: "fixed witnesses (repo tests, inputs of the findings) followed by seeded random cases: a (sort name, key recipe) pair, modifiers ''/:asc/:desc/:rev/:reverse in random letter case, 1 in 27 any specification incl. malformed ones; " +
 			"key recipes: numbers in several spellings (1, 1.0, 01, 1e0, -0, hex float, subnormal, > 2^53, out of range), nan/inf, text, number-like text (5x, 1,5), weekday/month names and abbreviations in random case, near-misses (sund, FR\\u0130), dates in 15 layouts, mixtures; values: distinct / many ties / all equal / int64 extremes. " +
 			"kinds: ax = every ordered pair on a fresh BuildSorter instance (decision matrix, compared off the diagonal; axioms on all triples in Coq); seq = 3..40 comparisons of distinct keys incl. swapped and repeated pairs on one instance; " +
 			"sort = sorting.Sort / SortBy / MatchCounter.ItemsSortedBy / TableAggregator.OrderedRows / OrderedColumns on every arrangement (<= 5 keys, sometimes 6) or 50 random arrangements (6..12 keys), fresh sorter each. " +
-			"distinct = distinct (kind, specification, keys with values, pairs/arrangements, path); non-trivial = at least 3 keys. Cases whose key set lies in the domain of a recorded finding carry kf: tags (decided from specification and keys alone) and go through Sort/SortBy only (the collectors' map order would make the run irreproducible there).",
+			"distinct = distinct (kind, specification, keys with values, pairs/arrangements, path); non-trivial = at least 3 keys. --sort date cases whose key set is neither inside one layout nor without any layout lie in the domain of the recorded finding C13-stateful-date: they carry its kf: tag (decided from specification and keys alone) and go through Sort/SortBy only (the collectors' map order would make the run irreproducible there). Distribution tags numbers+text, equal-values, calendar-mixture, calendar-tie, equal-instants mark the key sets the repaired comparators are about.",
 		Gen: c13Gen,
 		Replay: func(d json.RawMessage) (Case, error) {
 			var doc struct {
